@@ -24,6 +24,13 @@ PROPS = {
                  "documented result translation, nothing called on a bad id) and every *F function of IPhreeqc_interface_F.cpp (same-named C function, *id, documented -1 shifts, "
                  "padfstring on the result). All paths, all argument values.",
          "note": "GetInstance assumed pure (own unit). Behaviour of the forwarded-to methods is outside these units. astvc and clang's AST trusted."},
+ "C16": {"claimed": True, "engine": "B", "level": "proof",
+         "technique": "own VC generator over clang AST: iteration contract + symbolic derivative lemma (sympy), z3",
+         "text": "Iteration contract on the species loop of Phreeqc::gammas: for gflag 0,1,2,3,5,7 log gamma equals the model's defining equation "
+                 "(neutral, Davies, extended/WATEQ Debye-Hueckel, unit, LLNL B-dot) and dg = moles*ln10*d(lg)/d(mu) with the derivative taken symbolically from the specification; "
+                 "only lg/dg of that species are written. Statement contract: a_llnl/b_llnl/bdot_llnl are the linear interpolation between table entries. "
+                 "Pitzer and SIT sums, Gibbs-Duhem consistency, the DH A/B parameters and exchange/surface cases are NOT decided.",
+         "note": "Doubles as reals; sqrt/log10 uninterpreted (sqrt(x)^2=x); std::vector model; error_msg(.., STOP) assumed not to return; search loop over the LLNL table over-approximated (havoc)."},
  "C06": {"na_reason": "quantifies over thread schedules and bitwise reproducibility; code contracts and the VC generator are sequential and read doubles as reals; "
                       "the sequential remainder (unique ids, lock bracketing) belongs to C13 and says nothing about races"},
 }
